@@ -125,10 +125,11 @@ func doOutlinesSubset(o *cff.Outlines, list []int, id *subx.Ident) (p *subx.Proj
 }
 
 type built struct {
-	key  string
-	F    *subx.Font
-	font *sfnt.Font
-	id   *subx.Ident
+	origMsg string // non-empty: the library cannot project the original font
+	key     string
+	F       *subx.Font
+	font    *sfnt.Font
+	id      *subx.Ident
 }
 
 // runCase returns the events of one case as ndjson lines.
@@ -143,8 +144,18 @@ func runCase(c *caseT, b *built, first bool) [][]byte {
 	}
 	emit(evReset{Case: c.ID, Ev: "reset", F: c.F, List: c.List})
 
+	if b.origMsg != "" {
+		// the library cannot inspect the font built from valid parts: recorded, the case is not judged
+		emit(evProj{Case: c.ID, Ev: "orig", St: "uninspectable", P: subx.Empty(), Msg: b.origMsg})
+		return out
+	}
 	if first { // once per concrete font: the harness built what the model says
 		p0, msg := project(b.font, b.id)
+		if !p0.OK {
+			b.origMsg = msg
+			emit(evProj{Case: c.ID, Ev: "orig", St: "uninspectable", P: p0, Msg: msg})
+			return out
+		}
 		emit(evProj{Case: c.ID, Ev: "orig", St: "ok", P: p0, Msg: msg})
 	}
 
